@@ -17,7 +17,7 @@ from harness.core import gq, gbool, gstr, glist, gopt
 getcontext().prec = 60
 
 HEADER = """From FrameModel Require Import Num.QcTac Geometry.Rect Cases.Cmp Yaml.Tree Yaml.NetlistRead
-  Yaml.NetlistWrite Cases.CmpC0405.
+  Yaml.NetlistWrite Yaml.NetlistReadForms Cases.CmpC0405.
 Open Scope Qc_scope."""
 
 ASSUMPTIONS = [
@@ -65,7 +65,7 @@ MSG2REASON = [
     (r"Incorrect value for rectangle", ["R_rect_value"]),
     # bare asserts: region of a rectangle, create_stog on no rectangle, `assert isinstance(key, str)` of parse_yaml_module
     # (and `assert isinstance(stream, TextIO)` of read_yaml when Netlist(None) is called)
-    (r"^$", ["R_rect_region", "R_stog_empty", "R_module_attr", "R_root_not_map"]),
+    (r"^$", ["R_rect_region", "R_stog_empty", "R_module_attr", "R_source"]),
     (r"Hard rectangles cannot be assigned", ["R_rect_hard_region"]),
     (r"Incorrect rectangle width", ["R_rect_width"]),
     (r"Incorrect rectangle height", ["R_rect_height"]),
@@ -478,6 +478,8 @@ def to_coq(case, obs):
         return "true"      # decimal / non-ASCII documents: direct oracle only
     eps = case.get("eps")
     geps = gopt(None if eps is None else f"({gq(eps[0])}, {gq(eps[1])})")
+    if not isinstance(case["doc"], (dict, list)) and obs.get("via") == "tree":
+        return f"check_other {geps} {gobserved(obs)}"      # Netlist(None), Netlist(3): no tree, no text
     return f"check_case {geps} {gtree(case['doc'])} {gobserved(obs)}"
 
 
